@@ -62,6 +62,8 @@ func checkC12(c *Ctx) {
 	ruleRefusalIsNotTeardown(c, "C12.n")
 	c.rule("C12.o", "a hand-over counter compared with cap(ch) is incremented before the test and the send of the same round (the reader never blocks on a full item channel)", 1)
 	ruleCountBeforeSend(c, "C12.o")
+	c.rule("C12.p", "a number set copied out of a command field is not mutated in the copy (the record of delivered messages is kept)", 1)
+	ruleLostUpdateOnCopy(c, "C12.p", "imapclient")
 }
 
 var mirrorTypes = map[string]bool{"SelectedMailbox": true, "SelectData": true, "UnilateralDataMailbox": true}
